@@ -15,6 +15,7 @@ real-valued semantics; their content is the `false` direction: such an expressio
 -/
 import SymVerif.Lemmas.C34Dom
 import SymVerif.Lemmas.C34Build
+import SymVerif.Lemmas.C34Parity
 
 namespace SymVerif.C34
 open SymVerif SymVerif.Queries
@@ -157,6 +158,38 @@ theorem is_integer_sound_false (hb : build stmts = .ok A) (hs : Sat ρ stmts) (h
     (hv : evalR ρ e = some v) (hq : query "integer" A e = .ok .f) : ¬ ∃ n : ℤ, v = (n : ℝ) := by
   exact (isIntegerF_sound (build_sound hb hs) _ e v hw hv).2 (query_integer hq).symm
 
+/-! ## is_even / is_odd (`queryParity`, through the models of `div(b, 2)` and `add(b, 1)`) -/
+
+theorem queryParity_even {A : Assumptions} {e : Expr} {r : Tri} (h : queryParity "even" A e = .ok r) :
+    r = isEven A e := by
+  unfold queryParity at h
+  split at h
+  · cases h
+  · simp at h; exact h.symm
+
+theorem queryParity_odd {A : Assumptions} {e : Expr} {r : Tri} (h : queryParity "odd" A e = .ok r) :
+    r = isOdd A e := by
+  unfold queryParity at h
+  split at h
+  · cases h
+  · simp at h; exact h.symm
+
+theorem is_even_sound_true (hb : build stmts = .ok A) (hs : Sat ρ stmts) (hw : wf e = true)
+    (hv : evalR ρ e = some v) (hq : queryParity "even" A e = .ok .t) : ∃ n : ℤ, v = 2 * (n : ℝ) :=
+  (isEven_sound (build_sound hb hs) hw hv).1 (queryParity_even hq).symm
+
+theorem is_even_sound_false (hb : build stmts = .ok A) (hs : Sat ρ stmts) (hw : wf e = true)
+    (hv : evalR ρ e = some v) (hq : queryParity "even" A e = .ok .f) : ¬ ∃ n : ℤ, v = 2 * (n : ℝ) :=
+  (isEven_sound (build_sound hb hs) hw hv).2 (queryParity_even hq).symm
+
+theorem is_odd_sound_true (hb : build stmts = .ok A) (hs : Sat ρ stmts) (hw : wf e = true)
+    (hv : evalR ρ e = some v) (hq : queryParity "odd" A e = .ok .t) : ∃ n : ℤ, v + 1 = 2 * (n : ℝ) :=
+  (isOdd_sound (build_sound hb hs) hw hv).1 (queryParity_odd hq).symm
+
+theorem is_odd_sound_false (hb : build stmts = .ok A) (hs : Sat ρ stmts) (hw : wf e = true)
+    (hv : evalR ρ e = some v) (hq : queryParity "odd" A e = .ok .f) : ¬ ∃ n : ℤ, v + 1 = 2 * (n : ℝ) :=
+  (isOdd_sound (build_sound hb hs) hw hv).2 (queryParity_odd hq).symm
+
 /-! ## is_real / is_complex / is_finite / is_infinite: an expression declared non-real, non-complex or
        infinite has no real value at any assignment (no assumption on the assignment is needed) -/
 
@@ -214,5 +247,12 @@ example : ∃ A, build exStmts = .ok A ∧ wf exE2 = true ∧ evalR exRho exE2 =
   refine ⟨_, rfl, by decide, ?_, by decide, by decide, by decide, by decide, by decide, by decide⟩
   simp [exE2, evalR, evalFacs, powSem, exRho]
   norm_num
+
+/-- `y ∈ ℤ`: `4*y` is even, `2*y - 1` is odd, `3` is not even -/
+example : ∃ A, build exStmts = .ok A
+    ∧ queryParity "even" A (.mul (.int 4) [(.sym "y", .int 1)]) = .ok .t
+    ∧ queryParity "odd" A (.add (.int (-1)) [(.sym "y", .int 2)]) = .ok .t
+    ∧ queryParity "even" A (.int 3) = .ok .f ∧ queryParity "odd" A (.int 4) = .ok .f :=
+  ⟨_, rfl, by decide, by decide, by decide, by decide⟩
 
 end SymVerif.C34
